@@ -42,6 +42,18 @@ fn framings(tier: Tier) -> Vec<(String, Vec<u8>, usize, bool)> {
     for n in cls {
         v.push((format!("cl{}", n), post_cl("/b", &payload(n)), n, false));
     }
+    // the same with Expect: 100-continue, the client sending the body without waiting
+    for n in if thorough { vec![1usize, 1024, 1025, 3000] } else { vec![5usize, 1025] } {
+        let mut m = format!("POST /b HTTP/1.1\r\nHost: t\r\nExpect: 100-continue\r\nContent-Length: {}\r\n\r\n", n).into_bytes();
+        m.extend_from_slice(&payload(n));
+        v.push((format!("cl{}-expect", n), m, n, false));
+    }
+    {
+        let n = 1025;
+        let mut m = b"POST /b HTTP/1.1\r\nHost: t\r\nExpect: 100-continue\r\nTransfer-Encoding: chunked\r\n\r\n".to_vec();
+        m.extend_from_slice(&chunked(&payload(n), &[1000, 25], SizeSyntax::Lower));
+        v.push((format!("chunked{}-expect", n), m, n, true));
+    }
     let chs: Vec<usize> = if thorough { vec![10, 1024, 1025, 3000, 5120] } else { vec![10, 1025] };
     for n in chs {
         for (cn, sizes) in chunkings(n, thorough) {
@@ -114,6 +126,38 @@ fn cases(tier: Tier) -> &'static Vec<Case> {
                 }
             }
         }
+        // bodies far larger than any buffer or any bound on discarding work: the unread rest
+        // (megabytes, really sent) must still be skipped exactly
+        let mib = 1usize << 20;
+        let mut big: Vec<(String, Vec<u8>, usize, bool)> = vec![
+            (format!("cl{}", mib + 100), post_cl("/big", &payload(mib + 100)), mib + 100, false),
+            (format!("cl{}", 2 * mib + 1), post_cl("/big", &payload(2 * mib + 1)), 2 * mib + 1, false),
+            (format!("chunked{}-by65536", mib + mib / 2), post_chunked("/big", &payload(mib + mib / 2), &vec![65536; 24]), mib + mib / 2, true),
+        ];
+        if deep(tier) {
+            big.push((format!("cl{}", 5 * mib), post_cl("/big", &payload(5 * mib)), 5 * mib, false));
+            big.push((format!("chunked{}-by8192", 2 * mib), post_chunked("/big", &payload(2 * mib), &vec![8192; 256]), 2 * mib, true));
+        }
+        for (fl, msg, n, chunked) in big {
+            for (pl, rp) in [
+                ("read0".to_string(), ReadPlan::None),
+                ("read1by4096".to_string(), ReadPlan::part(4096, 1)),
+                (format!("read{}by4096", n / 2), ReadPlan::part(4096, n / 2)),
+                (format!("read{}by4096", n - mib - 1), ReadPlan::part(4096, n - mib - 1)),
+            ] {
+                for (finl, fin) in [("respond", Finish::Respond(RespSpec::ok(4))), ("drop", Finish::Drop)] {
+                    let mut bytes = msg.clone();
+                    bytes.extend_from_slice(&get("/n1"));
+                    v.push(Case {
+                        label: format!("{}/{}/{}/then-get", fl, pl, finl),
+                        bytes,
+                        plan: ReqPlan { read: rp.clone(), finish: fin.clone() },
+                        chunked,
+                        consumed_all: false,
+                    });
+                }
+            }
+        }
         v
     })
 }
@@ -161,8 +205,8 @@ impl Check for C09 {
     }
     fn rule(&self, tier: Tier) -> String {
         format!(
-            "first request with body framing {:?} x consumption {{0, 1, len/2, len-1, len bytes without seeing end-of-stream, len/2 or len bytes followed by a read with an empty buffer, to end-of-stream}} with read sizes 1/7/4096 x finish {{respond, drop, into_writer raw response, drop during a handler panic}} x following pipelined requests {:?}; {} conversations; the requests delivered after the body-bearing one must be exactly the following ones (heads and bodies), each answered, no 400; non-trivial = the body was not read to its end",
-            framings(tier).iter().map(|f| f.0.clone()).collect::<Vec<_>>(), followers(tier).iter().map(|f| f.0).collect::<Vec<_>>(), cases(tier).len()
+            "first request with body framing {:?} x consumption {{0, 1, len/2, len-1, len bytes without seeing end-of-stream, len/2 or len bytes followed by a read with an empty buffer, to end-of-stream}} with read sizes 1/7/4096 x finish {{respond, drop, into_writer raw response, drop during a handler panic}} x following pipelined requests {:?}; plus bodies of 1 MiB+100 / 2 MiB+1 (declared) and 1.5 MiB (chunked by 65536){} really sent, with 0 / 1 / half / all-but-1 MiB+1 bytes read, answered or dropped, then a GET; {} conversations; the requests delivered after the body-bearing one must be exactly the following ones (heads and bodies), each answered, no 400; non-trivial = the body was not read to its end",
+            framings(tier).iter().map(|f| f.0.clone()).collect::<Vec<_>>(), followers(tier).iter().map(|f| f.0).collect::<Vec<_>>(), if deep(tier) { " and 5 MiB / 2 MiB chunked by 8192" } else { "" }, cases(tier).len()
         )
     }
     fn replay(&self, replay: &Value, acc: &mut Acc) {
